@@ -12,7 +12,7 @@ use crate::refmodel::{p, Hid, Model, Param};
 use serde_json::{json, Map, Value};
 use std::sync::mpsc;
 
-pub const NCALLS: usize = 20;
+pub const NCALLS: usize = 21;
 /// calls explored to the deeper bound
 pub const CORE: [usize; 10] = [0, 1, 2, 4, 5, 7, 8, 11, 14, 17];
 
@@ -59,6 +59,7 @@ pub fn call_name(i: usize) -> &'static str {
         "sign A@15 m0 (SigningKey, last leaf of the key)",
         "sign C@0 (Sha256/32, 8 levels of W1: signature too long, refused)",
         "sign D@0 (Sha256/24, same parameter bytes as C: must sign)",
+        "keygen A through Seed::from([u8; 32]) with non-zero bytes beyond the hash length",
     ][i]
 }
 
@@ -153,6 +154,12 @@ pub fn exec_call(seed: u64, i: usize) -> Vec<u8> {
             let p8: Vec<Param> = (0..8).map(|_| p(1, 2)).collect();
             let seed = det_bytes(seed, "c09-CD", hid.n());
             enc_sign(&lib_api::sign(hid, &Model::new(hid).make_blob(0, &p8, &seed), &m0, Cb::Accept, None, Entry::Bytes))
+        }
+        20 => {
+            let mut s33 = vec![0xfeu8];
+            s33.extend_from_slice(&k.a_seed);
+            s33.extend(det_bytes(seed, "c09-tail", 32 - k.a_seed.len()).iter().map(|b| b | 1));
+            enc_kg(lib_api::keygen(k.a_hid, &k.a_params, &s33, None), None)
         }
         _ => vec![],
     }
@@ -254,6 +261,9 @@ fn entry_point_agreement(pr: &[Vec<u8>]) -> Vec<Viol> {
     }
     if pr[2] != pr[7] {
         v.push(Viol::new("C09:entry-points-disagree:aux", "signing with a valid aux buffer yields a different signature/successor than without"));
+    }
+    if pr.len() > 20 && pr[20] != pr[0] {
+        v.push(Viol::new("C09:entry-points-disagree:Seed::from", "key generation from a Seed built with Seed::from([u8; 32]) (non-zero bytes beyond the hash length) differs from key generation from the same n seed bytes"));
     }
     if pr.len() > 17 && pr[16] != pr[17] {
         v.push(Viol::new("C09:entry-points-disagree:SigningKey-last-leaf", "at the last leaf the in-memory SigningKey ends in a different state / signature than the byte-level function hands to its callback"));
@@ -487,7 +497,7 @@ pub fn run_c09(ctx: &Ctx) -> (&'static str, Map<String, Value>) {
     m.insert("free_running_calls_SAMPLING".into(), json!(free_calls));
     m.insert("structural_side_condition_holds".into(), json!(clean));
     m.insert("alphabet".into(), json!((0..NCALLS).map(call_name).collect::<Vec<_>>()));
-    m.insert("rule".into(), json!(format!("every sequence of calls over the full 20-call alphabet up to depth {} and over the 10-call core alphabet one call deeper (two deeper in the thorough tier) (state = the history, no merging), each executed call compared with the pristine result of the same call from a fresh process; all 20 interleavings of two OS threads x three calls for {} call assignments under a baton scheduler", depth - 1, triples.len() * triples.len())));
+    m.insert("rule".into(), json!(format!("every sequence of calls over the full 21-call alphabet up to depth {} and over the 10-call core alphabet one call deeper (two deeper in the thorough tier) (state = the history, no merging), each executed call compared with the pristine result of the same call from a fresh process; all 20 interleavings of two OS threads x three calls for {} call assignments under a baton scheduler", depth - 1, triples.len() * triples.len())));
     m.insert("exhaustive".into(), json!(true));
     ("model_checking", m)
 }
